@@ -2214,11 +2214,22 @@ class DateAdapter(se.Adapter):
         super(DateAdapter, self).__init__(None)
         self._multiplier = multiplier
 
+    _EPOCH = datetime.datetime(1970, 1, 1, tzinfo=datetime.timezone.utc)
+
     def decode(self, val: Any, ctx: Optional[se.ParseContext], pod: bool = False) -> Any:
-        return datetime.datetime.fromtimestamp(val / self._multiplier).isoformat()
+        # Integer math rather than float timestamps so sub-second values stay exact, and
+        # keep the UTC offset in the string so local times in a DST fold aren't ambiguous.
+        micros = (val * 1_000_000) // self._multiplier
+        date = self._EPOCH + datetime.timedelta(microseconds=micros)
+        return date.astimezone().isoformat()
 
     def encode(self, val: Any, ctx: Optional[se.ParseContext]) -> Any:
-        return int(datetime.datetime.fromisoformat(val).timestamp() * self._multiplier)
+        date = datetime.datetime.fromisoformat(val)
+        if date.tzinfo is None:
+            # Naive dates are taken to be in local time
+            return int(date.timestamp() * self._multiplier)
+        micros = (date - self._EPOCH) // datetime.timedelta(microseconds=1)
+        return (micros * self._multiplier) // 1_000_000
 
 
 @se.enum_field_serializer("MeanCollisionAlert", "MeanCollision", "Type")
